@@ -347,8 +347,8 @@ func c10Check(env *core.Env, ci any) (res core.Result) {
 
 func init() {
 	core.Register(&core.Prop{
-		ID: "C10",
-		Rule: "rapid-generated batches of 6-40 integer literals: type in the 12 integer types x value (range boundaries +-2, boundaries of other types +-1, 2^k+-1 up to k=300, small, uniform by bit length up to width+2 and sometimes 300 bits) x spelling (decimal/0x/0o/0b, upper/lower-case prefix and digits, single underscores between digits, leading zeros after a prefix, negation as -lit, '- lit', -(lit), parenthesised) x position (let initialiser, call argument, return value, struct field initialiser, fixed-array element). Oracle math/big: the set of lines `ferret -t` rejects must equal the out-of-range set exactly, and the accepted lines, compiled natively and run, must print their exact decimal value. non-trivial = within 2 of a range boundary, or non-decimal, or >= 65 bits; distinct = (type, spelling, position)",
+		ID:    "C10",
+		Rule:  "rapid-generated batches of 6-40 integer literals: type in the 12 integer types x value (range boundaries +-2, boundaries of other types +-1, 2^k+-1 up to k=300, small, uniform by bit length up to width+2 and sometimes 300 bits) x spelling (decimal/0x/0o/0b, upper/lower-case prefix and digits, single underscores between digits, leading zeros after a prefix, negation as -lit, '- lit', -(lit), parenthesised) x position (let initialiser, call argument, return value, struct field initialiser, fixed-array element). Oracle math/big: the set of lines `ferret -t` rejects must equal the out-of-range set exactly, and the accepted lines, compiled natively and run, must print their exact decimal value. non-trivial = within 2 of a range boundary, or non-decimal, or >= 65 bits; distinct = (type, spelling, position)",
 		Gen:   c10Gen,
 		New:   func() any { return &c10Case{} },
 		Check: c10Check,
